@@ -551,6 +551,14 @@ theorem blockNodes_bound (C : Crypto) (bs : Array Bytes) (i k : Nat) (hin : (i /
       rw [div_pow_succ' i j] at this
       exact Nat.le_trans this (Nat.le_trans hsp hin)
 
+/-- changesets made of reference nodes pass the oplog encoder's 32-byte-hash check -/
+theorem encodable_of_ref (C : Crypto) (hC : HashWF C) (bs : Array Bytes) (cs : Changeset)
+    (h : ∀ n ∈ cs.nodes, ∃ d o, n = nodeAt C bs d o) : Core.encodable cs = true := by
+  simp only [Core.encodable, List.all_eq_true, beq_iff_eq]
+  intro n hn
+  obtain ⟨d, o, rfl⟩ := h n hn
+  exact nodeAt_hash_len C hC bs d o
+
 /-- committing an accepted block answer keeps the replica closed and stores the block's leaf -/
 theorem block_commit_closed (C : Crypto) (hC : HashWF C) (bs : Array Bytes) (t : Tree) (f : File) (h : Closed C bs t f)
     (i k : Nat) (hstored : t.node? f (Flat.index k (i / 2 ^ k)) = some (nodeAt C bs k (i / 2 ^ k)))
@@ -914,7 +922,7 @@ def blockJournal (C : Crypto) (bs : Array Bytes) (c : Core) (d : Disk) (i : Nat)
   [.write .data (psum bs i) (bs.getD i [])] ++ (Oplog.appendEntry c.oplog entry).2
 
 /-- what `verify_and_apply_proof` does with the honest block answer -/
-theorem apply_block_shape (C : Crypto) (bs : Array Bytes) (c : Core) (d : Disk) (held : Nat → Bool) (h : RepR C bs c d held)
+theorem apply_block_shape (C : Crypto) (hC : HashWF C) (bs : Array Bytes) (c : Core) (d : Disk) (held : Nat → Bool) (h : RepR C bs c d held)
     (i : Nat) (hi : i < bs.size) :
     c.verifyAndApply C d (honestBlock C bs c d i)
       = { core := (afterBlock C bs c d i).maybeFlush.1, result := .ok true,
@@ -936,8 +944,12 @@ theorem apply_block_shape (C : Crypto) (bs : Array Bytes) (c : Core) (d : Disk) 
   have hp : (honestBlock C bs c d i).fork = c.tree.fork := rfl
   have hvv : verifyProof C c.tree d.tree (honestBlock C bs c d i) c.publicKey = .ok cs := by
     simp only [honestBlock, hk]; exact hv
+  have henc : Core.encodable cs = true := encodable_of_ref C hC bs cs (fun n hn => by
+    rw [hnodes] at hn
+    obtain ⟨dd, o, e, _⟩ := blockNodes_bound C bs i k hin n hn
+    exact ⟨dd, o, e⟩)
   unfold Core.verifyAndApply
-  simp only [hp, ne_eq, not_true_eq_false, ite_false, hvv, hcmt, Bool.not_true, Bool.false_eq_true, hds]
+  simp only [hp, ne_eq, not_true_eq_false, ite_false, hvv, hcmt, Bool.not_true, Bool.false_eq_true, hds, henc, ite_true]
   unfold Core.applyVerified
   simp only [Core.entryOf, hup, Bool.false_eq_true, ite_false, hcommit, Core.finishApply, hnodes]
   simp only [afterBlock, blockJournal, hk]
@@ -1037,7 +1049,7 @@ theorem apply_block (C : Crypto) (hC : HashWF C) (bs : Array Bytes) (c : Core) (
     (c.verifyAndApply C d (honestBlock C bs c d i)).result = .ok true
       ∧ RepR C bs (c.verifyAndApply C d (honestBlock C bs c d i)).core
           (d.applyAll (c.verifyAndApply C d (honestBlock C bs c d i)).journal) (fun j => held j || j == i) := by
-  rw [apply_block_shape C bs c d held h i hi]
+  rw [apply_block_shape C hC bs c d held h i hi]
   refine ⟨rfl, ?_⟩
   simp only []
   rw [Journal.applyAll_append]
@@ -1092,6 +1104,10 @@ theorem first_shape (C : Crypto) (hC : HashWF C) (bs : Array Bytes) (c : Core) (
   have hds : Core.dataStep c d (honestUpgrade C bs c.tree.fork sig) cs = .ok ([], none) := by
     simp [Core.dataStep, honestUpgrade]
   have hp : (honestUpgrade C bs c.tree.fork sig).fork = c.tree.fork := rfl
+  have henc : Core.encodable cs = true := encodable_of_ref C hC bs cs (fun n hn => by
+    rw [hnodes, RefTree.roots] at hn
+    obtain ⟨p, _, rfl⟩ := List.mem_map.mp hn
+    exact ⟨p.1, p.2, rfl⟩)
   -- the state before the periodic flush
   generalize hc1 : ({ c with oplog := (Oplog.appendEntry c.oplog (Core.entryOf cs none c.header).1).1, header := (Core.entryOf cs none c.header).2, bitfield := c.bitfield, tree := tr } : Core) = c1
   have hshape : c.verifyAndApply C d (honestUpgrade C bs c.tree.fork sig)
@@ -1099,7 +1115,7 @@ theorem first_shape (C : Crypto) (hC : HashWF C) (bs : Array Bytes) (c : Core) (
           journal := (Oplog.appendEntry c.oplog (Core.entryOf cs none c.header).1).2 ++ c1.maybeFlush.2,
           events := Core.appliedEvents (honestUpgrade C bs c.tree.fork sig) none } := by
     unfold Core.verifyAndApply
-    simp only [hp, ne_eq, not_true_eq_false, ite_false, hvv, hcmt, Bool.not_true, Bool.false_eq_true, hds]
+    simp only [hp, ne_eq, not_true_eq_false, ite_false, hvv, hcmt, Bool.not_true, Bool.false_eq_true, hds, henc, ite_true]
     unfold Core.applyVerified
     simp only [hcommit, Core.finishApply, List.nil_append, ← hc1]
   have hsum : UpgradeBytes.SumOK cs := by
@@ -1140,6 +1156,10 @@ theorem firstCore_repr (C : Crypto) (hC : HashWF C) (bs : Array Bytes) (c : Core
   have hds : Core.dataStep c d (honestUpgrade C bs c.tree.fork sig) cs = .ok ([], none) := by
     simp [Core.dataStep, honestUpgrade]
   have hp : (honestUpgrade C bs c.tree.fork sig).fork = c.tree.fork := rfl
+  have henc : Core.encodable cs = true := encodable_of_ref C hC bs cs (fun n hn => by
+    rw [hnodes, RefTree.roots] at hn
+    obtain ⟨p, _, rfl⟩ := List.mem_map.mp hn
+    exact ⟨p.1, p.2, rfl⟩)
   -- the state before the periodic flush
   generalize hc1 : ({ c with oplog := (Oplog.appendEntry c.oplog (Core.entryOf cs none c.header).1).1, header := (Core.entryOf cs none c.header).2, bitfield := c.bitfield, tree := tr } : Core) = c1
   have hshape : c.verifyAndApply C d (honestUpgrade C bs c.tree.fork sig)
@@ -1147,7 +1167,7 @@ theorem firstCore_repr (C : Crypto) (hC : HashWF C) (bs : Array Bytes) (c : Core
           journal := (Oplog.appendEntry c.oplog (Core.entryOf cs none c.header).1).2 ++ c1.maybeFlush.2,
           events := Core.appliedEvents (honestUpgrade C bs c.tree.fork sig) none } := by
     unfold Core.verifyAndApply
-    simp only [hp, ne_eq, not_true_eq_false, ite_false, hvv, hcmt, Bool.not_true, Bool.false_eq_true, hds]
+    simp only [hp, ne_eq, not_true_eq_false, ite_false, hvv, hcmt, Bool.not_true, Bool.false_eq_true, hds, henc, ite_true]
     unfold Core.applyVerified
     simp only [hcommit, Core.finishApply, List.nil_append, ← hc1]
   have hj1 : ∀ op ∈ (Oplog.appendEntry c.oplog (Core.entryOf cs none c.header).1).2, op.store = .oplog := Journal.appendEntry_store _ _
@@ -1218,6 +1238,10 @@ theorem apply_first_upgrade (C : Crypto) (hC : HashWF C) (bs : Array Bytes) (c :
   have hds : Core.dataStep c d (honestUpgrade C bs c.tree.fork sig) cs = .ok ([], none) := by
     simp [Core.dataStep, honestUpgrade]
   have hp : (honestUpgrade C bs c.tree.fork sig).fork = c.tree.fork := rfl
+  have henc : Core.encodable cs = true := encodable_of_ref C hC bs cs (fun n hn => by
+    rw [hnodes, RefTree.roots] at hn
+    obtain ⟨p, _, rfl⟩ := List.mem_map.mp hn
+    exact ⟨p.1, p.2, rfl⟩)
   -- the state before the periodic flush
   generalize hc1 : ({ c with oplog := (Oplog.appendEntry c.oplog (Core.entryOf cs none c.header).1).1, header := (Core.entryOf cs none c.header).2, bitfield := c.bitfield, tree := tr } : Core) = c1
   have hshape : c.verifyAndApply C d (honestUpgrade C bs c.tree.fork sig)
@@ -1225,7 +1249,7 @@ theorem apply_first_upgrade (C : Crypto) (hC : HashWF C) (bs : Array Bytes) (c :
           journal := (Oplog.appendEntry c.oplog (Core.entryOf cs none c.header).1).2 ++ c1.maybeFlush.2,
           events := Core.appliedEvents (honestUpgrade C bs c.tree.fork sig) none } := by
     unfold Core.verifyAndApply
-    simp only [hp, ne_eq, not_true_eq_false, ite_false, hvv, hcmt, Bool.not_true, Bool.false_eq_true, hds]
+    simp only [hp, ne_eq, not_true_eq_false, ite_false, hvv, hcmt, Bool.not_true, Bool.false_eq_true, hds, henc, ite_true]
     unfold Core.applyVerified
     simp only [hcommit, Core.finishApply, List.nil_append, ← hc1]
   have hj1 : ∀ op ∈ (Oplog.appendEntry c.oplog (Core.entryOf cs none c.header).1).2, op.store = .oplog := Journal.appendEntry_store _ _
